@@ -398,6 +398,50 @@ fn exprs_of(t: &ST, params: &[ST], neg: bool) -> Vec<String> {
     }
 }
 
+/// The values of `exprs_of(t, …)`, in the same order, as Rust's `Debug` prints
+/// them once they crossed the boundary under the image of `t` (parameters
+/// carry the fixed arguments of `family::callable!`: `true`, `7`).
+fn vals_of(t: &ST, params: &[ST], neg: bool) -> Vec<String> {
+    if let Some(i) = params.iter().position(|q| q == t) {
+        return match &params[i] {
+            ST::Prim("bool") => vec!["true".into()],
+            ST::Prim("u8") => vec!["7".into()],
+            _ => vec![],
+        };
+    }
+    let wrap = |t: &ST, l: &str, r: &str| -> Vec<String> {
+        vals_of(t, params, neg).into_iter().map(|e| format!("{l}{e}{r}")).collect()
+    };
+    match t {
+        ST::IntLit => vec![if neg { "-70000".into() } else { "70000".into() }],
+        ST::FloatLit => vec![if neg { "-0.5".into() } else { "0.5".into() }],
+        ST::Unit => vec!["()".into()],
+        ST::Opt(x) if **x == ST::Hole => vec!["None".into()],
+        ST::Opt(x) => wrap(x, "Some(", ")"),
+        // `List`'s `Debug` prints `List([…])`
+        ST::List(x) if **x == ST::Hole => vec!["List([])".into()],
+        ST::List(x) => {
+            let es = vals_of(x, params, neg);
+            if es.is_empty() { vec![] } else { vec![format!("List([{}])", es.join(", "))] }
+        }
+        ST::Res(a, b) => {
+            let mut v = if **a == ST::Hole { vec![] } else { wrap(a, "Ok(", ")") };
+            if **b != ST::Hole {
+                v.extend(wrap(b, "Err(", ")"));
+            }
+            v
+        }
+        ST::Ver(a, b) => {
+            let mut v = if **a == ST::Hole { vec![] } else { wrap(a, "Accept(", ")") };
+            if **b != ST::Hole {
+                v.extend(wrap(b, "Reject(", ")"));
+            }
+            v
+        }
+        _ => vec![],
+    }
+}
+
 /// `t` with one component below a constructor left unresolved: the payload
 /// `Some(70000)` becomes `None`, `[[0.5]]` becomes `[[]]`, `Ok(1)`+`Err(0.5)`
 /// loses one of the two. `None` if `t` has no constructor.
@@ -562,9 +606,7 @@ impl Decl {
                         Side::FloatLit => vec![format!("{kw} 1.5")],
                         Side::Built(t) => {
                             let ps: &[ST] = if cx.shadow.is_empty() { &self.params } else { &[] };
-                            // every third filtermap writes its literals negated
-                            let neg = self.name[1..].parse::<usize>().is_ok_and(|n| n % 3 == 2);
-                            exprs_of(t, ps, neg).into_iter().map(|e| format!("{kw} {e}")).collect()
+                            exprs_of(t, ps, self.negated()).into_iter().map(|e| format!("{kw} {e}")).collect()
                         }
                     }
                 };
@@ -579,6 +621,36 @@ impl Decl {
                 format!("filtermap {}({}) {{ {body} }}\n", self.name, params.join(", "))
             }
             Kind::Test => format!("test {} {{ accept }}\n", self.name),
+        }
+    }
+
+    fn negated(&self) -> bool {
+        // every third filtermap writes its literals negated
+        self.name[1..].parse::<usize>().is_ok_and(|n| n % 3 == 2)
+    }
+
+    /// What a call (arguments `true` / `7`) of this filtermap returns, as
+    /// `Debug` prints it: the body runs its first statement. `None`: not a
+    /// filtermap whose payloads the harness can evaluate.
+    fn call_value(&self, cx: &Cx) -> Option<String> {
+        let Kind::Filtermap(a, r) = &self.kind else { return None };
+        if !cx.shadow.is_empty() {
+            return None;
+        }
+        let val = |s: &Side| -> Option<Option<String>> {
+            Some(match s {
+                Side::Unused => None,
+                Side::NoPayload => Some("()".to_string()),
+                Side::Param(i) => Some(vals_of(&self.params[*i], &self.params, false).into_iter().next()?),
+                Side::IntLit => Some("1".to_string()),
+                Side::FloatLit => Some("1.5".to_string()),
+                Side::Built(t) => Some(vals_of(t, &self.params, self.negated()).into_iter().next()?),
+            })
+        };
+        match (val(a)?, val(r)?) {
+            (Some(x), _) => Some(format!("Accept({x})")),
+            (None, Some(y)) => Some(format!("Reject({y})")),
+            (None, None) => None,
         }
     }
 
@@ -1888,6 +1960,31 @@ fn run_script(fam: &[Entry], rts: &[Runtime<NoCtx>], drv: &mut Driver, rep: &mut
                 rep.violation("get_function refused the true Rust signature of a script function", &key, input);
             }
         }
+        // A handle granted under the true signature of a filtermap whose payload types were
+        // inferred from literals: the code behind it must have been compiled at that very
+        // signature (`TypeInfo::convert` defaults literal types on its own). Call it.
+        if round == 1 && real == Outcome::Ok && expected_ok {
+            if let (Some(call), Some(di)) = (e.call, pr.decl) {
+                let d = &script.decls[di];
+                if let (true, Some(want)) = (d.ret.has_literal(), d.call_value(&cx)) {
+                    let got = std::panic::catch_unwind(std::panic::AssertUnwindSafe(|| call(&mut pkg, &pr.name))).unwrap_or(Some("panic".into()));
+                    rep.evaluations += 1;
+                    rep.hist("called", if got.as_deref() == Some(want.as_str()) { "returned the script's value" } else { "returned another value" });
+                    if got.as_deref() != Some(want.as_str()) && rep.impl_violations.len() < 200 {
+                        rep.violation(
+                            "a handle granted under the documented image of an inferred signature returns another value than the script computes (the function was compiled at another signature than the gate checked)",
+                            &format!("granted-signature-is-not-the-compiled-one:{}", d.label),
+                            json!({
+                                "seed": seed, "index": index, "env": cx.env, "script": script.src, "function": d.show(&cx),
+                                "name": pr.name, "rust_type": e.show(), "label": pr.label, "expected": "ok",
+                                "call": true, "expected_value": want, "returned": got, "real": real_s, "model": j.model,
+                                "history": [], "history_kind": "none",
+                            }),
+                        );
+                    }
+                }
+            }
+        }
         if real_s != j.model {
             rep.mismatch(
                 "model and implementation disagree on get_function",
@@ -2072,6 +2169,18 @@ fn main() {
             println!("expected : {}", v["expected"].as_str().unwrap_or("?"));
             println!("real     : {real}");
             rep.evaluations = 1;
+            if v["call"].as_bool() == Some(true) {
+                // a granted handle, called: compile again (the package above was consumed by the request)
+                let e = fam.iter().find(|e| e.show() == ty).expect("rust type in family");
+                let rt = runtime(v["env"].as_u64().unwrap_or(0) as usize);
+                let mut pkg = FileTree::test_file("c04.roto", v["script"].as_str().unwrap_or(""), 0).compile(&rt).map_err(|e| e.to_string()).expect("compiles");
+                let got = e.call.and_then(|c| std::panic::catch_unwind(std::panic::AssertUnwindSafe(|| c(&mut pkg, name))).unwrap_or(Some("panic".into())));
+                let want = v["expected_value"].as_str().unwrap_or("?");
+                println!("called   : returned {} — the script computes {want}", got.as_deref().unwrap_or("(not granted)"));
+                if got.as_deref() != Some(want) {
+                    rep.violation("replayed: the granted handle returns another value than the script computes", v["label"].as_str().unwrap_or("replay"), v.clone());
+                }
+            }
             if (real == "ok") != expected_ok || real == "panic" {
                 rep.violation("replayed: the gate's answer differs from the documented mapping", v["label"].as_str().unwrap_or("replay"), v.clone());
             }
